@@ -148,6 +148,10 @@ def generate(rng, tier):
             text = "%s to %s" % (lit(rng, v, src), WORDS[tgt][0])
             add(two_lines(text, out, kind="convert", value=bits(fv), nt=BASES[tgt][2], out=out) if out else
                 exec_case(text, "en", kind="convert", value=bits(fv), nt=BASES[tgt][2], out=None))
+    # the result takes the notation of the LEFT operand: a decimal literal in front of a based one stays decimal
+    for text, val in (("5 + 0x10", 21.0), ("20 - 0b11", 17.0), ("2 * 0o17", 30.0), ("100 / 0x4", 25.0), ("7 + 0x10 + 0b1", 24.0),
+                      ("1 + 2 + 0xFF", 258.0)):
+        add(exec_case(text, "en", kind="arith-decimal-left", value=bits(val), nt="Decimal", out=None))
     # hex digit strings that contain something looking like another based literal (0b1, 0B0, 0b10 ...): the whole
     # literal is ONE hex number (the three based regexes must be tried in an order that lets the hex literal win)
     for hx in ["10B1", "a0b0", "0b0", "10b11", "F0B1F", "200B0", "7e0b1", "0B", "B0B", "1b0b1"]:
